@@ -1057,6 +1057,12 @@ class Exec:
             a = self.concretize(st, vals[0]); n = self.concretize(st, vals[1])
             for i in range(n): st.mem[a + i] = (i * 37 + 11) & 0xff
             return ret(n)
+        if name == '@getcwd':
+            # environment stub: the working directory is "/" (the native runs of the harness library use the real one)
+            a = self.concretize(st, vals[0]); n = self.concretize(st, vals[1])
+            if n < 2: return ret(0)
+            st.mem[a] = ord('/'); st.mem[a + 1] = 0
+            return ret(a)
         if name == '@strlen':
             a = self.concretize(st, vals[0]); n = 0
             while self.rd(st, a + n) != 0: n += 1
